@@ -37,7 +37,7 @@ from sympy.core.relational import Relational
 from sympy.physics.units import Quantity as SymQuantity
 
 from . import sym2smt
-from .core import Ob, PROVED, REFUTED, UNKNOWN, FAULT, PKG, REPO
+from .core import Ob, PROVED, REFUTED, UNKNOWN, FAULT, PKG, REPO, die_with_parent
 from .smt import prove
 
 SMT_TIMEOUT_S = float(os.environ.get("VERIF_TV_SMT_TIMEOUT", "8"))
@@ -2480,6 +2480,7 @@ def run_trees_guarded(args) -> dict:
             try:
                 os.close(rr)
                 os.close(pr)
+                die_with_parent()
                 _PROGRESS_FD = pw
                 out = run_trees((kind, pid_, gname, symset, depth, todo))
                 data = pickle.dumps(out)
@@ -2664,7 +2665,7 @@ def run_property(report, pid: str, kind: str):
     for symset in ("base", alt):
         tree_tasks.append((kind, pid, "hand", symset, 0, list(range(len(HAND_SHAPES)))))
     ctx = mp.get_context("fork")
-    with ctx.Pool(nproc) as pool:
+    with ctx.Pool(nproc, initializer=die_with_parent) as pool:
         mod_async = pool.map_async(run_module, [(kind, pid, f) for f in files], chunksize=4)
         tree_async = pool.map_async(run_trees_guarded, tree_tasks, chunksize=1)
         mod_results = mod_async.get()
